@@ -613,11 +613,12 @@ impl<'s, 'w, W: Write, S: Borrow<Schema>> Serializer for SchemaAwareSerializer<'
             )?),
             Schema::Record(record) => {
                 // Structs with flattened fields are serialized as a map
+                // `len` is the number of entries, not a byte count
                 Ok(MapOrRecordSerializer::record(
                     self.writer,
                     record,
                     self.config,
-                    len,
+                    None,
                 ))
             }
             Schema::Union(union) => {
